@@ -27,21 +27,29 @@ EPS = 2.0 ** -52
 AMB_ULPS = 16
 
 
-def quotient_kind(a, dt, mult=1):
+def grid_exact(dt, span):
+    """True when every multiple j*dt, j <= span, is exact in binary64 (dt has a short mantissa: dyadic fractions, small
+    integers). Only then does an implementation working on the time axis (t_j = j*dt compared with 2*tau) see exactly the
+    same boundary coincidences as one working on the sample axis."""
+    return Fraction(float(dt)).numerator.bit_length() + int(span).bit_length() <= 53
+
+
+def quotient_kind(a, dt, mult=1, span=0):
     """Classify q = mult*a/dt evaluated EXACTLY on the float inputs.
-    ('exact', k): q is the integer k;  ('near', k): q != k but |q-k| <= AMB_ULPS ulps of k;  ('frac', floor(q))."""
+    ('exact', k): q is the integer k and the time grid up to span+k samples is exact (or a == 0);
+    ('near', k): |q-k| <= AMB_ULPS ulps of k but not 'exact';  ('frac', floor(q))."""
     q = mult * Fraction(float(a)) / Fraction(float(dt))
     k = int(round(q))
     if q == k:
-        return 'exact', k
+        return ('exact' if (a == 0 or grid_exact(dt, span + k + 2)) else 'near'), k
     if abs(q - k) <= Fraction(AMB_ULPS * EPS) * max(1, abs(k)):
         return 'near', k
     return 'frac', int(q // 1)
 
 
-def floor_options(a, dt, mult=1):
+def floor_options(a, dt, mult=1, span=0):
     """Admissible values of floor(mult*a/dt): one value, or {k-1, k} on an inexact knife edge."""
-    kind, k = quotient_kind(a, dt, mult)
+    kind, k = quotient_kind(a, dt, mult, span)
     if kind == 'near':
         return sorted(set([max(k - 1, 0), k]))
     return [k]
@@ -49,7 +57,7 @@ def floor_options(a, dt, mult=1):
 
 def edge_options(x, dt, tau):
     """Admissible resolutions (first sample belongs to the record?, last sample belongs to the record?)."""
-    kind, _ = quotient_kind(tau, dt, 2)
+    kind, _ = quotient_kind(tau, dt, 2, len(x))
     opts = [(True, True)]
     if kind != 'near':
         return opts
@@ -67,7 +75,7 @@ def down_wave(x, dt, tau, length, edge=(True, True)):
     edge: resolution of the first / last record sample on an inexact knife edge (see module docstring)."""
     n = len(x)
     out = [0.0] * length
-    kind, k = quotient_kind(tau, dt, 2)
+    kind, k = quotient_kind(tau, dt, 2, n)
     s = float(k) if kind == 'exact' else (2.0 * tau) / dt
     for j in range(length):
         p = j - s
@@ -112,7 +120,7 @@ def energy_series(acc, dt):
 
 def natural_length(n, dt, tau):
     """Length after which the acceleration of this row is identically zero (so E is constant), plus slack."""
-    return n + floor_options(tau, dt, 2)[-1] + 3
+    return n + floor_options(tau, dt, 2, n)[-1] + 3
 
 
 def place(series, shift, length, tail_constant):
@@ -137,12 +145,12 @@ def placements(n, dt, taus, stt, trim, start):
     if not start:
         if trim:
             return [(n, (0,) * k)]
-        opts = [floor_options(t, dt, 2) for t in taus]
+        opts = [floor_options(t, dt, 2, n) for t in taus]
         for combo in itertools.product(*opts):
             alts.append((n + max(combo), (0,) * k))
         return sorted(set(alts))
-    fts = [floor_options(t, dt) for t in taus]
-    for fs in floor_options(stt, dt):
+    fts = [floor_options(t, dt, 1, n) for t in taus]
+    for fs in floor_options(stt, dt, 1, n):
         for combo in itertools.product(*fts):
             sh = tuple(fs - f for f in combo)
             alts.append((n if trim else n + max(max(sh), 0), sh))
